@@ -103,12 +103,33 @@ def fresh(name, sort):
     return Const(f'{name}!{next(_fresh)}', sort.z if isinstance(sort, S) else sort)
 
 
-def midnight(t):
-    return 86400 * ToReal(ToInt(t / 86400))
+def fresh_id():
+    return next(_fresh)
+
+
+def reset_fresh():
+    """names of fresh constants restart per unit: the queries of a unit are textually identical on every run, whatever the worker
+    process did before (stable solver behaviour)"""
+    global _fresh
+    _fresh = itertools.count()
+
+
+# Calendar days: dayidx (= floor(t / 86400)) and midnight are uninterpreted functions characterised by linear axioms - no to_int
+# terms (which the solver handles badly) and no arithmetic needed for "the midnight of a midnight is itself".
+# TIME_AXIOMS is added to the axioms of every unit (part of assumption A-time).
+_dayfn = Function('dayidx', RealSort(), IntSort())
+_midfn = Function('midnight', RealSort(), RealSort())
+_tt = Const('_tt', RealSort())
+TIME_AXIOMS = [ForAll([_tt], And(86400 * ToReal(_dayfn(_tt)) <= _tt, _tt < 86400 * ToReal(_dayfn(_tt)) + 86400), patterns=[_dayfn(_tt)]),
+               ForAll([_tt], And(_midfn(_tt) == 86400 * ToReal(_dayfn(_tt)), _dayfn(_midfn(_tt)) == _dayfn(_tt)), patterns=[_midfn(_tt)])]
 
 
 def dayidx(t):
-    return ToInt(t / 86400)
+    return _dayfn(t)
+
+
+def midnight(t):
+    return _midfn(t)
 
 
 # ------------------------------------------------------------------------------------------------ state
